@@ -7,5 +7,6 @@ CONSTANTS
   Bug_CloseAllClosesLast = FALSE
   Bug_NoSwallow = FALSE
   Bug_NoResetSourcePosition = FALSE
+  PairLast = FALSE
 INVARIANT HistoryIndependent
 CHECK_DEADLOCK FALSE
